@@ -5,7 +5,7 @@ import os
 from .model import AnalysisError
 from .report import VERIF
 from .callgraph import closure
-from .rules import r1_resolve, r2_none, r3_ctor, r9_purity, r4_predicates, r5_arghandler, r6_dispatch, r7_binary, r8_accessors, r_list, r10_args, r11_symbolic, r16_tables, r15_closed, r14_interp, r18_shared, r19_angles
+from .rules import r1_resolve, r2_none, r3_ctor, r9_purity, r4_predicates, r5_arghandler, r6_dispatch, r7_binary, r8_accessors, r_list, r10_args, r11_symbolic, r16_tables, r15_closed, r14_interp, r18_shared, r19_angles, r20_shapes
 
 _anch = None
 
@@ -264,6 +264,14 @@ def c_dev10r(run):
 CHECKS['DEV10R'] = c_dev10r
 
 
+def c_dev20(run):
+    r20_shapes.check_shapes(run, run.prog.analysed_functions())
+    run.explanation = 'dev R20'
+
+
+CHECKS['DEV20'] = c_dev20
+
+
 def base_exports(run):
     prog = run.prog
     b = prog.modules['spatialmath.base']
@@ -335,6 +343,7 @@ def c16(run):
     r11_symbolic.check_allocations(run)
     ms = r11_symbolic.marked(prog)
     r18_shared.check_shared_structure(run)
+    r16_tables.check_det(run)
     r16_tables.check_routes(run, [('super_pose:SMPose.simplify', 'every element simplified whole', ['self.__class__([vectorize(simplify)(x) for x in self.data], check=False)', 'self.__class__([vf(x) for x in self.data], check=False)'], 'return')], rule='R18')
     run.floor('R18', 30)
     r1_resolve.run_r1(run, closure(ms, depth=1 if run.tier == 'quick' else None, prog=prog))
@@ -405,7 +414,32 @@ def _scope_rules(run, pid, r1=True, r2=True, r9=True):
     if r9:
         # operators and functions in the scope of the property must not modify their operands: an in-place shortcut makes
         # every law that reuses an operand (X**-1 * X, (X*Y)*p, q.interp(..) twice) fail
-        r9_purity.run_r9(run, run.prog.analysed_functions(), report_only={f.key for f in fs})
+        # ... and the classes whose objects take part carry no hidden state: every method of a class that owns a function in
+        # the scope (and of the concrete classes that inherit it) is included, so a memoised accessor that is not invalidated
+        # by the list interface (X[0] = ..., append, reverse) is reported under the property whose laws re-use the object
+        prog = run.prog
+        keys = {f.key for f in fs}
+        classes = set()
+        for f in fs:
+            g = f
+            while g is not None and g.cls is None:
+                g = g.parent
+            if g is not None and g.cls is not None:
+                classes.add(g.cls)
+                for anc in g.cls.mro:
+                    if hasattr(anc, 'module') and anc.module is not None:
+                        classes.add(anc)
+        for f in anchors(run, pid):
+            for k in r1_resolve.receiver_classes(prog, f):
+                classes.add(k)
+        for f in prog.analysed_functions():
+            g = f
+            while g is not None and g.cls is None:
+                g = g.parent
+            if g is not None and g.cls in classes:
+                keys.add(f.key)
+        run.extra['state_classes'] = sorted(c.name for c in classes)
+        r9_purity.run_r9(run, prog.analysed_functions(), report_only=keys)
     return fs
 
 
@@ -539,6 +573,8 @@ def c06(run):
 def c11(run):
     r14_interp.run_r14(run)
     r8_accessors.check_accessor(run, run.prog.func('super_pose:SMPose.interp'))
+    r20_shapes.check_shapes(run, run.prog.analysed_functions())
+    run.floor('R20', 10)
     _scope_rules(run, 'C11')
     run.floor('R14', 25)
     run.explanation = ('Interpolation, structural part: every value-returning path of trinterp, slerp and UnitQuaternion.interp has passed '
@@ -548,7 +584,9 @@ def c11(run):
                        'violation); UnitQuaternion.interp forms the equivalent weighted sum and returns through the normalising '
                        'constructor; trinterp feeds slerp with start first and end second (identity when start is omitted), '
                        'interpolates the translation linearly and rebuilds with rt2tr(q2r(.), .); trinterp2 uses one linear form for '
-                       'angle and translation; SMPose.interp routes by dimension and maps vector s / sequence poses element-wise. '
+                       'angle and translation; SMPose.interp routes by dimension and maps vector s / sequence poses element-wise; R20: under the '
+                       'ismatrix facts of each branch the shapes pushed through t2r/r2t/q2r meet the shape each base function accepts (the '
+                       'SO(3) branch of trinterp is not dead). '
                        'Constant-rate and fixed-axis behaviour as numerical statements are not decided.')
     run.trust(*STATIC_TRUST)
 
@@ -582,7 +620,8 @@ def c13(run):
         ('pose3d:SE3.Delta', 'pose from differential motion', ['cls(delta2tr(d), check=False)'], 'return'),
         ('twist:Twist3.Ad', 'adjoint through the exponential', ['self.SE3().Ad()'], 'return'),
     ], rule='R16')
-    _scope_rules(run, 'C13')
+    fs13 = _scope_rules(run, 'C13')
+    r11_symbolic.check_allocations(run, only={f.key for f in fs13}, floor=4)
     run.floor('R16', 20)
     run.explanation = ('Lie-algebra maps, table part: skew (n=1, n=3) equals the antisymmetric cross-product matrix entry by entry; vex '
                        'reads half the antisymmetric differences and vex(skew(v)) = v holds by composing the two literal tables; '
@@ -591,7 +630,8 @@ def c13(run):
                        '[[R,0],[0,R]] for SO(3)), tr2jac is [[R^T, (skew(t) R)^T],[0,R^T]] / [[R^T,0],[0,R^T]], Twist3.ad is '
                        '[[skew(w), skew(v)],[0, skew(w)]]; tr2delta forms the increment as the group word T0^-1 * T1 (T0 alone for '
                        'one argument) and reads [transl(Td), vex(t2r(Td) - I)]; delta2tr = I + skewa(d); the SE3 methods route to '
-                       'these functions.' + NUMERIC_NOTE)
+                       'these functions; result arrays allocated with the dtype of one argument receive only values derived from that argument '
+                       '(R11a: an integer first pose must not truncate the increment).' + NUMERIC_NOTE)
     run.trust(*STATIC_TRUST)
 
 
